@@ -182,7 +182,7 @@ inductive Rx where
   | eps
   | chr (c : Ch)
   | dot                                      -- WildcardEsc
-  | cls (c : CClass)
+  | cls (c : CClass) (src : List Ch)          -- the class and its source text `[...]`
   | bol | eol                                -- F&O: `^` `$`
   | group (capture : Bool) (r : Rx)
   | cat (a b : Rx)
@@ -391,16 +391,17 @@ def pAtom (o : Opts) : Nat → List Ch → PSt → Option (Rx × List Ch × PSt)
         | some (r, 41 :: rest', st1) => some (.group true r, rest', { st1 with closed := idx :: st1.closed })
         | _ => none
     | 91 :: rest =>
-      (pClass o (3 * rest.length + 4) rest st).map fun (c, rest', st1) => (.cls c, rest', st1)
+      (pClass o (3 * rest.length + 4) rest st).map fun (c, rest', st1) =>
+        (.cls c (91 :: rest.take (rest.length - rest'.length)), rest', st1)
     | 92 :: e :: rest =>
       match singleEsc o e with
       | some c => some (.chr c, rest, st)
       | none =>
         match multiEsc e with
-        | some (k, neg) => some (.cls (.mk false [.esc k neg] none), rest, st)
+        | some (k, neg) => some (.cls (.mk false [.esc k neg] none) [92, e], rest, st)
         | none =>
           if e == 112 || e == 80 then
-            (pPropName rest).map fun (name, rest') => (.cls (.mk false [.prop name (e == 80)] none), rest', st)
+            (pPropName rest).map fun (name, rest') => (.cls (.mk false [.prop name (e == 80)] none) [], rest', st)
           else if o.xpath && isDigit e && e != 48 then
             (pBackref st e rest).map fun (n, rest') => (.backref n, rest', st)
           else none
@@ -492,7 +493,7 @@ def Rx.hasBackref : Rx → Bool
 
 /-- does every `\p{..}` name a known subset? (part of validity, [88]) -/
 def Rx.propsKnown (T : Tables) : Rx → Bool
-  | .cls c => (c.toClassE T).isSome
+  | .cls c _ => (c.toClassE T).isSome
   | .group _ r | .quant r _ _ _ => r.propsKnown T
   | .cat a b | .alt a b => a.propsKnown T && b.propsKnown T
   | _ => true
@@ -503,7 +504,7 @@ def Rx.toRE (T : Tables) (fl : Flags) : Rx → RE
   | .eps => .eps
   | .chr c => .cls (· == c)
   | .dot => if fl.dotAll then anyCh else .cls fun c => c != 10 && c != 13      -- `[^\n\r]`
-  | .cls c => match c.toClassE T with
+  | .cls c _ => match c.toClassE T with
     | some e => .cls fun x => decide (x < maxCP1) && specClass e x
     | none => .empty
   | .bol => .anchor (if fl.multi then .bolM else .bol)
